@@ -143,24 +143,24 @@ def _parts(node):
 def writer_lines(src_dir=None):
     """-> (labels {(indent, label, kind)}, others {literal text}) over every f.write of the writer modules"""
     import numpy as np
+    model = live_model()          # imports geophires_x.Model first (circular imports)
     import geophires_x
     from geophires_x.Outputs import Outputs
-    model = live_model()
     labels, others = set(), set()
     src_dir = Path(src_dir or fw.SRC / 'geophires_x')
     for fn in WRITERS:
         tree = ast.parse((src_dir / fn).read_text())
         for func in [n for n in ast.walk(tree) if isinstance(n, ast.FunctionDef)]:
             ns = {'model': model, 'Outputs': Outputs, 'NL': '\n', 'np': np, 'geophires_x': geophires_x, 'str': str, 'round': round}
-            loopvars = set()
-            for n in ast.walk(func):
-                if isinstance(n, ast.Assign) and len(n.targets) == 1 and isinstance(n.targets[0], ast.Name):
+            assigns = sorted([n for n in ast.walk(func) if isinstance(n, (ast.Assign, ast.AnnAssign))], key=lambda n: n.lineno)
+            for n in assigns:
+                tgt = n.target if isinstance(n, ast.AnnAssign) else n.targets[0] if len(n.targets) == 1 else None
+                if isinstance(tgt, ast.Name) and n.value is not None:
                     try:
-                        ns[n.targets[0].id] = eval(compile(ast.Expression(n.value), fn, 'eval'), ns)
+                        ns[tgt.id] = eval(compile(ast.Expression(n.value), fn, 'eval'), ns)
                     except Exception:
-                        pass
-                if isinstance(n, ast.For) and isinstance(n.target, ast.Name):
-                    loopvars.add(n.target.id)
+                        pass              # not a name/label helper (needs run-time state): left undefined
+            loopvars = {n.target.id for n in ast.walk(func) if isinstance(n, ast.For) and isinstance(n.target, ast.Name)}
             for call in [n for n in ast.walk(func) if isinstance(n, ast.Call) and isinstance(n.func, ast.Attribute)
                          and n.func.attr == 'write' and isinstance(n.func.value, ast.Name) and n.func.value.id == 'f']:
                 if len(call.args) != 1:
@@ -183,6 +183,9 @@ def writer_lines(src_dir=None):
                         try:
                             text += str(eval(compile(ast.Expression(p), fn, 'eval'), env))
                         except Exception as e:
+                            last = text.split('\n')[-1]
+                            if last and not last.startswith(' '):
+                                break                 # not a label line (labels are indented): a table heading
                             raise ValueError(f'{fn}:{call.lineno}: cannot evaluate label expression '
                                              f'{ast.unparse(p)}: {e!r}') from e
                     pieces = text.split('\n')
